@@ -3,6 +3,7 @@
 //! The input numbers start with the component number understood by `mrun` (the extracted model).
 mod codec;
 mod robs_deque;
+mod robs_list;
 mod robs_vec;
 mod rng;
 mod transport;
@@ -76,6 +77,7 @@ fn main() {
     match comp {
         "codec" => codec::run(seed, count, &extra, &mut out),
         "robs_deque" => robs_deque::run(seed, count, &extra, &mut out),
+        "robs_list" => robs_list::run(seed, count, &extra, &mut out),
         "robs_vec" => robs_vec::run(seed, count, &extra, &mut out),
         _ => {
             eprintln!("unknown component {comp}");
